@@ -115,6 +115,40 @@ DONE["C20"] = dict(
           "argument for unbounded path length on a scaled model."),
     ref="6.5, 6.6, 11 C20", tech="explicit TLA+ specification, trace validation with TLC + exhaustive model check of the drift argument")
 
+DONE["C12"] = dict(
+    text=("ScanBuf.tla models the scanner's refill / peek layer over an io.Reader with arbitrary short reads and EOF timing; "
+          "TLC checks NothingLost / ErrSticky / EofOnlyAtEnd over all schedules on short inputs and enumerates chunk schedules; "
+          "the harness runs a corpus through all five entry points under every two-chunk split, one-byte reads and every "
+          "schedule x EOF mode x seekable and compares with the all-at-once run; multi-call splits of programs are generated "
+          "and checked (SplitTransparent) with PSMachine and replayed."),
+    ref="6.8, 11 C12", tech=TECH_MBT + " (delivery schedules)")
+DONE["C13"] = dict(
+    text=("Faults.tla states the outcome rules (no panic; delivered fault => error; undelivered => unharmed result; truncated "
+          "font / CMap => error or complete result); the harness injects a read fault and a truncation at every byte offset of "
+          "every corpus input and a write fault at every write-call index (plus sampled short writes) of every writer; TLC "
+          "validates every recorded run. The specification is a thin rule set; the strength is the enumeration of fault points."),
+    ref="6.8, 11 C13, 13", tech="fault enumeration, every run validated by TLC against an explicit TLA+ rule set")
+DONE["C17"] = dict(
+    text=("Determinism.tla: history invariant (one digest per call and input) and an emitter model showing that only sorting "
+          "emission loops are deterministic; repeated writes / reads of map-heavy fonts, metrics and multi-CMap files within and "
+          "across processes are recorded and validated by TLC."),
+    ref="6.11, 11 C17, 13", tech="explicit TLA+ history invariant, trace validation with TLC")
+DONE["C18"] = dict(
+    text=("PSIsolation.tla (templates, clone vs share; TLC finds the violation when the CIDInit template is shared) drives hostile "
+          "histories whose probe digest must equal a clean process; NameTable.tla (mutex-guarded lazy tables; TLC finds the "
+          "partial read without the lock) is bound by hook events (H3) recorded under the mutex in first-use races and validated "
+          "by TLC; the same runs execute in a -race build whose reports are violations."),
+    ref="6.10, 6.11, 11 C18, 13", tech="explicit TLA+ specifications checked with TLC, model-driven hostile histories, hook trace validation, Go race detector as observer",
+    note=TRUSTED + " Data races in the Go memory-model sense are observed by the race detector on model-driven runs.")
+
+DONE["C16"] = dict(
+    text=("AGL.tla transcribes the Adobe Glyph List specification (ToText, FromScalar, Valid) over byte sequences with tables "
+          "generated by an independent parser of the three .txt files; TLC checks the specification's own round trip and table "
+          "well-formedness, enumerates every table entry, uni/u forms around all boundaries, malformed and composite names and the "
+          "validity classes (MBT), and validates the library's answers for every Unicode scalar value, one event per scalar, in "
+          "parallel chunks (thorough: all 1,112,064; quick: BMP and border ranges)."),
+    ref="6.10, 11 C16", tech=TECH_MBT + " + exhaustive trace validation of all scalars")
+
 PENDING = "check not built yet in this round (planned, see DESIGN.md section 11)"
 
 
